@@ -8,8 +8,8 @@ PARTIAL.  The compiler is a pipeline  text → AST → grammar (builder) → LR 
 `unwrap / expect / assert! / todo! / index` as an explicit `panic` outcome, and their totality is
 proved here for the code as it is in `/repo` (`Front.repoVariant`, `Resolve.Fixes.current`):
 
-* the grammar builder (`Front.build`, C09's model): no panic outside two decidable classes of texts,
-  each of which is a recorded known finding with a proved witness;
+* the grammar builder (`Front.build`, C09's model): no panic outside one decidable class of texts
+  (integer literals that do not fit `u32`), a recorded known finding with a proved witness;
 * conflict resolution of one cell (`Resolve.cell`, C05's model): never a panic.
 
 The parser of the grammar language (an instance of C15), the item-set construction and the code
@@ -20,29 +20,30 @@ texts and token/byte-level mutations).
 namespace Rustemo.Props.C16
 open Rustemo.Front
 
-/-- **Builder totality for the code in `/repo`**: a `File` AST whose integer literals fit `u32`, that
-has no rule that is its own repetition helper (`A1: … A+ …`, finding F5b) and is not one of the two
-AST shapes no text produces (an empty rule list, a rule without alternatives) is never answered by a
-panic: `Front.build` returns a grammar or a diagnostic. -/
+/-- **Builder totality for the code in `/repo`**: a `File` AST whose integer literals fit `u32` and which
+is not one of the two AST shapes no text produces (an empty rule list, a rule without alternatives) is
+never answered by a panic: `Front.build` returns a grammar or a diagnostic.  (Since C09-fix-9 a rule that
+is its own repetition helper — `A1: … A+ …`, finding F5b — is a diagnostic, no hypothesis any more.) -/
 theorem C16_front_end_total (f : File)
-    (hint : f.big u32Max = false) (hself : f.selfHelper repoVariant = false)
+    (hint : f.big u32Max = false)
     (h2 : (f.rules == some []) = false) (h3 : (f.ruleList.any fun r => r.alts.isEmpty) = false) :
     ∀ s, build repoVariant f ≠ .panic s :=
   Rustemo.Props.C09.C16_build_total_partial repoVariant f
     (Rustemo.Props.C09.C16_safe_of_classes repoVariant f
       (by simp [hint]) (by simp [repoVariant]) h2 h3 (by simp [repoVariant]) (by simp [repoVariant])
-      (by simp [repoVariant]) (by simp [repoVariant]) hself)
+      (by simp [repoVariant]) (by simp [repoVariant]) (by simp [repoVariant]))
 
-/-- the two classes excluded above do panic (so the hypotheses cannot be dropped): the witnesses of the
-known findings `F9-int-const-panic` and `F5b-self-helper-index-gap`; every other historic front-end
-panic is a diagnostic now -/
+/-- the class excluded above does panic (so the hypothesis cannot be dropped): the witness of the known
+finding `F9-int-const-panic`; every other historic front-end panic is a diagnostic now — the rule that is
+its own helper (`F5b-self-helper-index-gap`, the former index panic) included -/
 theorem C16_front_end_open_panics :
     build repoVariant Rustemo.Front.Ex.fBigInt = .panic .intConst ∧
-    build repoVariant Rustemo.Front.Ex.fSelf = .panic .reachIndex ∧
+    build repoVariant Rustemo.Front.Ex.fSelf = .err (.helperClash (nm "A1")) ∧
     build repoVariant Rustemo.Front.Ex.fTermsOnly = .err .noRules ∧
     build repoVariant Rustemo.Front.Ex.fGroup = .err .notImplemented ∧
     build repoVariant Rustemo.Front.Ex.fGreedy = .err .notImplemented ∧
-    build repoVariant Rustemo.Front.Ex.fMods = .err .notImplemented := by decide
+    build repoVariant Rustemo.Front.Ex.fMods = .err .notImplemented ∧
+    build repoVariant Rustemo.Front.Ex.fReserved = .err (.reserved (nm "AUG")) := by decide
 
 /-- what the builder hands to the later stages: no production references `STOP` (so the `STOP` column
 of the table holds no SHIFT: the "at most one SHIFT or ACCEPT per cell" premise of
@@ -67,7 +68,7 @@ theorem C16_resolution_total (cfg : Rustemo.Resolve.Cfg) (info : Nat → Rustemo
 
 /-- non-vacuity: the example grammar of C09 (every kind of sugar, meta-data, inline string, EMPTY)
 meets the hypotheses of `C16_front_end_total` -/
-example : Rustemo.Front.Ex.fGood.big u32Max = false ∧ Rustemo.Front.Ex.fGood.selfHelper repoVariant = false ∧
+example : Rustemo.Front.Ex.fGood.big u32Max = false ∧
     (Rustemo.Front.Ex.fGood.rules == some []) = false ∧
     (Rustemo.Front.Ex.fGood.ruleList.any fun r => r.alts.isEmpty) = false := by decide
 
